@@ -56,7 +56,8 @@ std::string baseConfig() {
 // "partial" (prefix of a valid document), "nocompile" (unknown target),
 // "baddelay" (compile used to throw), "wrongshape" (well-formed JSON with a
 // value of the wrong type at position `shape`: jsoncpp raises Json::LogicError,
-// which is not a std::runtime_error)
+// which is not a std::runtime_error), "multi_bad" (two rulesets, one of which
+// targets a base that does not exist)
 std::string content(const Json::Value& w) {
   std::string kind = w["kind"].asString();
   if (kind == "wrongshape") {
@@ -91,6 +92,16 @@ std::string content(const Json::Value& w) {
   r["detectors"].append(dg);
   if (kind == "baddelay") r["post_action_delay"] = "soon";
   cfg["rulesets"].append(r);
+  if (kind == "multi_bad") {
+    // a second ruleset naming a base that does not exist invalidates the whole file
+    Json::Value r2 = r;
+    r2["name"] = "no_such_ruleset";
+    if (w.get("shape", 0).asInt() % 2) {
+      cfg["rulesets"].append(r2);
+    } else {
+      cfg["rulesets"].insert(0, r2);
+    }
+  }
   std::string s = jstr(cfg);
   if (kind == "invalid") return "{ this is not json ]";
   if (kind == "partial") return s.substr(0, s.size() / 2);
@@ -99,9 +110,9 @@ std::string content(const Json::Value& w) {
 
 Json::Value genWrite(int& serial, const std::string& name) {
   Json::Value w(Json::objectValue);
-  int k = W({56, 9, 9, 9, 7, 10});
-  w["kind"] = k == 0 ? "valid" : k == 1 ? "invalid" : k == 2 ? "partial" : k == 3 ? "nocompile" : k == 4 ? "baddelay" : "wrongshape";
-  if (k == 5) w["shape"] = R(0, 6);
+  int k = W({52, 8, 8, 8, 6, 10, 8});
+  w["kind"] = k == 0 ? "valid" : k == 1 ? "invalid" : k == 2 ? "partial" : k == 3 ? "nocompile" : k == 4 ? "baddelay" : k == 5 ? "wrongshape" : "multi_bad";
+  if (k >= 5) w["shape"] = R(0, 6);
   w["base"] = R(0, kBases - 1);
   w["marker"] = name + "_v" + std::to_string(serial++);
   w["pieces"] = W({60, 25, 15}) + 1;
